@@ -249,21 +249,18 @@ type meta struct {
 	descr string
 }
 
-// Check is the C01 entry point.
-func Check(r *core.Run) error {
-	r.SetRule("spec/Exchange.tla: the handler and an installed middleware see exactly the parameter and body values the caller gave (absent members with a default arrive as the default), the caller gets exactly the variant, status, header and body the handler returned; a value outside a row's core domain (Core: non-empty text without the row's delimiters) is delivered exactly or refused with a client error / 4xx, never changed; an uncarriable <<variant, code>> is an error. " +
-		"TLC checks the response routing design (status written -> variant picked) for every variant x code and that core values never fall under the style table's ambiguity rule, and emits every admitted parameter row (spec/ParamStyle.tla) x Go type, value domains per shape, bodies and <<variant, code, header>> responses. " +
-		"Conformance: one document (operations per location x group required/optional/default, a body operation, a response operation with 200+header, 201, 4XX, default) is regenerated from /repo as client and server; the generated client calls the generated server in process; a recording handler, a middleware and the caller's result are projected by reflection and judged by TLC, one parameter varying per call. " +
-		"Non-trivial = every call; distinct = (kind, row, outcome).")
-	res, err := tlc.Run(nil, tlc.Options{SpecDir: obs.SpecDir, Module: "ExchangeMC", Timeout: 10 * time.Minute, Scratch: r.Scratch, Workers: 8,
-		Cfg: tlc.Cfg("INIT Init", "NEXT Next", "INVARIANTS Routing Misrouted CoreCarried", "CHECK_DEADLOCK FALSE")})
-	if err != nil {
-		return err
-	}
-	if res.Violated != "" {
-		return fmt.Errorf("%w: ExchangeMC violates %s\n%s", tlc.ErrInfra, res.Violated, tlc.Tail(res, 30))
-	}
-	r.AddStates(res.Distinct, res.Generated)
+// Prepared is the regenerated package with its driver and the call list.
+type Prepared struct {
+	Bin   string
+	Calls []dcall
+	metas []meta
+	ops   map[string]*op
+}
+
+// Prepare lets TLC emit rows, values, bodies and responses, renders the exchange document,
+// regenerates client and server from /repo and builds the driver. extra adds operations
+// only C19 drives (validated body with pattern / multipleOf, streamed body and response).
+func Prepare(r *core.Run, extra, race bool) (*Prepared, error) {
 	var rows []row
 	var vals []struct {
 		Shape string `json:"shape"`
@@ -276,7 +273,7 @@ func Check(r *core.Run) error {
 	var resps []M
 	for mode, into := range map[string]any{"rows": &rows, "vals": &vals, "bodies": &bodies, "resps": &resps} {
 		if err := emit(r, mode, into); err != nil {
-			return err
+			return nil, err
 		}
 	}
 	r.Cov("parameter_rows", len(rows))
@@ -328,33 +325,44 @@ func Check(r *core.Run) error {
 		"201":     M{"description": "created"},
 		"4XX":     M{"description": "client error", "content": jsonOf("E4")},
 		"default": M{"description": "error", "content": jsonOf("ED")}}}}
+	if extra {
+		paths["/vbody"] = M{"post": M{"operationId": "vbody", "requestBody": M{"required": true, "content": jsonOf("VBody")}, "responses": M{"200": M{"description": "ok", "content": jsonOf("VBody")}}}}
+		bin := M{"application/octet-stream": M{"schema": M{"type": "string", "format": "binary"}}}
+		paths["/stream"] = M{"post": M{"operationId": "stream", "requestBody": M{"required": true, "content": bin}, "responses": M{"200": M{"description": "ok", "content": bin}}}}
+	}
 	msg := func() M {
 		return M{"type": "object", "required": []string{"msg"}, "properties": M{"msg": M{"type": "string"}}}
 	}
 	doc, _ := json.Marshal(M{"openapi": "3.0.3", "info": M{"title": "t", "version": "1"}, "paths": paths, "components": M{"schemas": M{
 		"Body": M{"type": "object", "required": []string{"n"}, "properties": orderedProps{{"n", M{"type": "integer"}}, {"s", M{"type": "string", "default": "sd"}},
 			{"on", M{"type": "string", "nullable": true}}, {"l", M{"type": "array", "items": M{"type": "integer"}}}}},
-		"R200": msg(), "E4": msg(), "ED": msg()}}})
+		"R200": msg(), "E4": msg(), "ED": msg(),
+		"VBody": M{"type": "object", "required": []string{"p", "m"}, "properties": orderedProps{{"p", M{"type": "string", "pattern": "^[a-z]+$"}}, {"m", M{"type": "number", "multipleOf": 0.5}},
+			{"q", M{"type": "string", "pattern": "^(a|b)+c$", "maxLength": 40}}}}}}})
 	mod, err := gencode.NewModule(r.Scratch, "mod")
 	if err != nil {
-		return err
+		return nil, err
 	}
 	if _, err := mod.Generate("api", doc, gencode.ClientServer()); err != nil {
-		return fmt.Errorf("%w: the exchange document is refused: %v", tlc.ErrInfra, err)
+		return nil, fmt.Errorf("%w: the exchange document is refused: %v", tlc.ErrInfra, err)
 	}
 	surf, err := gencode.InspectDir(filepath.Join(mod.Dir, "api"), "api")
 	if err != nil {
-		return err
+		return nil, err
 	}
 	if err := mod.WriteFile("drv/glue.go", []byte(glue(surf))); err != nil {
-		return err
+		return nil, err
 	}
 	if err := mod.WriteFile("drv/main.go", []byte(driverMain)); err != nil {
-		return err
+		return nil, err
 	}
-	bin, err := mod.Build("drv", "drv")
+	var flags []string
+	if race {
+		flags = append(flags, "-race")
+	}
+	bin, err := mod.Build("drv", "drv", flags...)
 	if err != nil {
-		return err
+		return nil, err
 	}
 
 	// ---- the calls ----------------------------------------------------------------------
@@ -412,6 +420,44 @@ func Check(r *core.Run) error {
 		calls = append(calls, dcall{Method: "Resp", Keys: [][]string{}, Resp: &d})
 		metas = append(metas, meta{kind: "resp", vary: -1, resp: rv})
 	}
+	if extra {
+		vb := func(p string, m float64, q M) M {
+			return M{"t": "objn", "m": []any{[]any{"P", strOf(p)}, []any{"M", M{"t": "int", "n": m}}, []any{"Q", q}}}
+		}
+		for _, v := range []M{vb("abc", 15, absent), vb("ABC", 15, absent), vb("abc", 13, absent), vb("zz", 0, strOf("ababababc")), vb("q", 5, strOf("abababababababababababababababababab")), vb("", 10, absent)} {
+			calls = append(calls, dcall{Method: "Vbody", HasReq: true, Req: v, Keys: [][]string{}, Resp: &dresp{"VBody", vb("ok", 5, absent)}})
+			metas = append(metas, meta{kind: "extra", vary: -1})
+		}
+		for _, data := range []string{"", "x", strings.Repeat("stream-", 3000)} {
+			calls = append(calls, dcall{Method: "Stream", HasReq: true, Req: M{"t": "objn", "m": []any{[]any{"Data", strOf(data)}}}, Keys: [][]string{},
+				Resp: &dresp{"StreamOK", M{"t": "objn", "m": []any{[]any{"Data", strOf("reply:" + data)}}}}})
+			metas = append(metas, meta{kind: "extra", vary: -1})
+		}
+	}
+	return &Prepared{Bin: bin, Calls: calls, metas: metas, ops: ops}, nil
+}
+
+// Check is the C01 entry point.
+func Check(r *core.Run) error {
+	r.SetRule("spec/Exchange.tla: the handler and an installed middleware see exactly the parameter and body values the caller gave (absent members with a default arrive as the default), the caller gets exactly the variant, status, header and body the handler returned; a value outside a row's core domain (Core: non-empty text without the row's delimiters) is delivered exactly or refused with a client error / 4xx, never changed; an uncarriable <<variant, code>> is an error. " +
+		"TLC checks the response routing design (status written -> variant picked) for every variant x code and that core values never fall under the style table's ambiguity rule, and emits every admitted parameter row (spec/ParamStyle.tla) x Go type, value domains per shape, bodies and <<variant, code, header>> responses. " +
+		"Conformance: one document (operations per location x group required/optional/default, a body operation, a response operation with 200+header, 201, 4XX, default) is regenerated from /repo as client and server; the generated client calls the generated server in process; a recording handler, a middleware and the caller's result are projected by reflection and judged by TLC, one parameter varying per call. " +
+		"Non-trivial = every call; distinct = (kind, row, outcome).")
+	res, err := tlc.Run(nil, tlc.Options{SpecDir: obs.SpecDir, Module: "ExchangeMC", Timeout: 10 * time.Minute, Scratch: r.Scratch, Workers: 8,
+		Cfg: tlc.Cfg("INIT Init", "NEXT Next", "INVARIANTS Routing Misrouted CoreCarried", "CHECK_DEADLOCK FALSE")})
+	if err != nil {
+		return err
+	}
+	if res.Violated != "" {
+		return fmt.Errorf("%w: ExchangeMC violates %s\n%s", tlc.ErrInfra, res.Violated, tlc.Tail(res, 30))
+	}
+	r.AddStates(res.Distinct, res.Generated)
+	pp, err := Prepare(r, false, false)
+	if err != nil {
+		return err
+	}
+	calls, metas := pp.Calls, pp.metas
+	bin := pp.Bin
 	r.Cov("calls", len(calls))
 	out := filepath.Join(r.Scratch, "calls.out")
 	job, _ := json.Marshal(M{"calls": calls, "out": out})
@@ -604,9 +650,9 @@ func glue(s *gencode.Surface) string {
 				args = append(args, fmt.Sprintf("a%d", i))
 			}
 		}
-		fmt.Fprintf(&b, "func (handler) %s%s %s {\n\trecordArgs([]any{%s})\n", m.Name, m.Params, m.Results, strings.Join(args, ", "))
+		fmt.Fprintf(&b, "func (handler) %s%s %s {\n\trecordArgs(a0, []any{%s})\n", m.Name, m.Params, m.Results, strings.Join(args, ", "))
 		if m.NRes == 2 {
-			fmt.Fprintf(&b, "\tr, _ := nextResp().(%s)\n\treturn r, nil\n}\n\n", m.ResType[0])
+			fmt.Fprintf(&b, "\tr, _ := nextResp(a0).(%s)\n\treturn r, nil\n}\n\n", m.ResType[0])
 		} else {
 			b.WriteString("\treturn nil\n}\n\n")
 		}
